@@ -11,11 +11,74 @@ fn keywords() -> serde_json::Value {
     })
 }
 
+fn charset(f: &dyn Fn(char) -> bool) -> serde_json::Value {
+    let mut mask: u128 = 0;
+    for c in 0u32..128 {
+        if f(char::from_u32(c).unwrap()) {
+            mask |= 1u128 << c;
+        }
+    }
+    let mut ranges: Vec<(u32, u32)> = vec![];
+    let mut cur: Option<(u32, u32)> = None;
+    for c in 128u32..=0x10FFFF {
+        let inside = match char::from_u32(c) { Some(ch) => f(ch), None => false };
+        match (inside, cur) {
+            (true, None) => cur = Some((c, c)),
+            (true, Some((lo, _))) => cur = Some((lo, c)),
+            (false, Some(r)) => { ranges.push(r); cur = None; }
+            (false, None) => {}
+        }
+    }
+    if let Some(r) = cur { ranges.push(r); }
+    json!({"mask": mask.to_string(), "ranges": ranges})
+}
+
+fn dialects() -> serde_json::Value {
+    use sqlparser::dialect::*;
+    let mut out = serde_json::Map::new();
+    for name in vh::DIALECT_NAMES {
+        let d = vh::dialect_by_name(name);
+        let d = d.as_ref();
+        // classify is_proper_identifier_inside_quotes by probing
+        let probe = |s: &str| d.is_proper_identifier_inside_quotes(s.chars().peekable());
+        let probes = ["[a]", "[ a]", "[1]", "[ 1]", "[", "[ ]", "\"a\"", "\"1\"", "[\u{a0}_x]", "[#]", "[\t\n_]"];
+        let answers: Vec<bool> = probes.iter().map(|s| probe(s)).collect();
+        let always = answers.iter().all(|b| *b);
+        let redshift_like: Vec<bool> = probes.iter().map(|s| {
+            let mut it = s.chars(); it.next();
+            match it.skip_while(|c| c.is_whitespace()).next() { Some(c) => d.is_identifier_start(c), None => false }
+        }).collect();
+        let piq = if always { "always" } else if answers == redshift_like { "redshift" } else { "unknown" };
+        out.insert(name.to_string(), json!({
+            "ident_start": charset(&|c| d.is_identifier_start(c)),
+            "ident_part": charset(&|c| d.is_identifier_part(c)),
+            "delim_start": charset(&|c| d.is_delimited_identifier_start(c)),
+            "custom_op": charset(&|c| d.is_custom_operator_part(c)),
+            "piq": piq,
+            "backslash": d.supports_string_literal_backslash_escape(),
+            "unicode_lit": d.supports_unicode_string_literal(),
+            "triple": d.supports_triple_quoted_string(),
+            "numeric_prefix": d.supports_numeric_prefix(),
+            "is_bigquery": d.is::<BigQueryDialect>(), "is_generic": d.is::<GenericDialect>(),
+            "is_snowflake": d.is::<SnowflakeDialect>(), "is_duckdb": d.is::<DuckDbDialect>(),
+            "is_postgresql": d.is::<PostgreSqlDialect>(),
+            "identifier_quote_style": d.identifier_quote_style("x").map(|c| c.to_string()),
+        }));
+    }
+    json!({"dialects": out, "uni": {
+        "whitespace": charset(&|c| c.is_whitespace()),
+        "numeric": charset(&|c| c.is_numeric()),
+        "alphanumeric": charset(&|c| c.is_alphanumeric()),
+        "alphabetic": charset(&|c| c.is_alphabetic()),
+    }})
+}
+
 fn main() {
     let args: Vec<String> = std::env::args().collect();
     let what = args.get(1).map(|s| s.as_str()).unwrap_or("");
     let v = match what {
         "keywords" => keywords(),
+        "dialects" => dialects(),
         _ => {
             eprintln!("usage: extract keywords");
             std::process::exit(2);
